@@ -202,6 +202,8 @@ def resolve(a, pool):
         return UNITS[a['u']]
     if 'new' in a:
         return mk_start(a['new'])
+    if 'np' in a:                       # a NumPy scalar: ['int64', 2]
+        return getattr(np, a['np'][0])(a['np'][1])
     raise KeyError(str(a))
 
 
@@ -761,4 +763,56 @@ def gen_inplace_units(rng, reps):
                                 opd['dunits'] = u           # the derivative operand carries the units as well
                         step = {'name': name, 'how': 'method', 'tgt': {'p': 0}, 'args': [{'p': 1}], 'kwargs': {}}
                         progs.append((cn, name, u or 'None', {'starts': [tgt, opd], 'steps': [step]}))
+    return progs
+
+
+BROADCAST_PAIRS = [([2, 3], [1, 3]), ([2, 3], [2, 1]), ([2], [1]), ([3, 2], [1, 1])]
+LITERAL_OPERANDS = [{'v': 2}, {'v': 3}, {'v': 0}, {'v': 1}, {'v': -1}, {'v': 2.5}, {'v': True}, {'np': ['int64', 2]},
+                    {'np': ['float64', 0.5]}, {'np': ['bool_', True]}]
+
+
+def _operand_class(cn, kind, tgt):
+    if kind == 'scalar':
+        return 'Scalar', []
+    ocn, item = TWIN.get(cn, (cn if cn != 'Qube' else 'Scalar', tgt['numer']))
+    if CLS[ocn].NUMER is None and ocn != 'Scalar':
+        item = tgt['numer']
+    return ocn, item
+
+
+def gen_inplace_shapes(rng, reps):
+    """systematic programs for every class x every in-place operator:
+    (a) operand of the SAME rank as the target with length-1 axes (broadcast within the rank) and an ARRAY mask, the
+        target's mask being the single value False / True or an array;
+    (b) a shapeless target holding a single Python value, updated with plain numbers of every sort (ints other than
+        0/1, floats, bools, NumPy scalars) - the class's value-type clause (`cls_kind`) is judged afterwards."""
+    progs = []
+    for cn in CLASS_NAMES:
+        for name in [n for n in INPLACE_OPS if n in api_of(cn)]:
+            for (tshape, oshape) in BROADCAST_PAIRS:
+                for kind in ('scalar', 'twin'):
+                    for _ in range(reps):
+                        tgt = gen_start(rng, cn, tshape, plain=True)
+                        tgt.pop('pyscalar', None)
+                        if CLS[cn].FLOATS_OK:
+                            tgt['dtype'] = 'float'
+                        tgt['mask'] = rng.choice(['F', 'F', 'T', 'A'])
+                        ocn, item = _operand_class(cn, kind, tgt)
+                        opd = {'cls': ocn, 'shape': list(oshape), 'numer': list(item), 'mask': rng.choice(['A', 'A', 'Z']),
+                               'dtype': rng.choice(['posfloat', 'float', 'int'] if ocn != 'Boolean' else ['bool']),
+                               'seed': rng.randrange(10 ** 6)}
+                        if name in ('__iand__', '__ior__', '__ixor__') and rng.random() < 0.5:
+                            opd = dict(opd, cls='Boolean', numer=[], dtype='bool')
+                        step = {'name': name, 'how': 'method', 'tgt': {'p': 0}, 'args': [{'p': 1}], 'kwargs': {}}
+                        progs.append((cn, name, 'bcast', {'starts': [tgt, opd], 'steps': [step]}))
+            for lit in LITERAL_OPERANDS:
+                for _ in range(reps):
+                    tgt = gen_start(rng, cn, [], plain=True)
+                    tgt['pyscalar'] = True
+                    tgt['mask'] = rng.choice(['F', 'F', 'T'])
+                    step = {'name': name, 'how': 'method', 'tgt': {'p': 0}, 'args': [dict(lit)], 'kwargs': {}}
+                    steps = [step]
+                    if rng.random() < 0.3:
+                        steps.append({'name': '<pickle>', 'tgt': {'p': 0}})
+                    progs.append((cn, name, 'literal', {'starts': [tgt], 'steps': steps}))
     return progs
